@@ -32,7 +32,8 @@ ASSUMPTIONS = [
 MIN_NONTRIVIAL = 10
 REQUIRED_COUNTERS = {'c15_resets_evaluated': 40,
                      'c15_resets_with_qualifying_work': 10,
-                     'c15_resets_without_manual_work': 10}
+                     'c15_resets_without_manual_work': 10,
+                     'c15_second_command_in_a_row': 5}
 SHARD_TIMEOUT = {'quick': 900, 'thorough': 5400}
 
 
@@ -257,8 +258,28 @@ def run_case(acc, seed, idx):
                 acc.violation('reset-complete-leaves-integration-branches',
                               'after %s: %s remain' % (
                                   command, w_names(a.refs, p['src'])), wit)
+            if idx % 3 == 1:
+                # the command once more, while the robot's latest comment is
+                # still its answer to the first one
+                w.do('comment', pr=p['id'], user=AUTHOR, text='/' + command)
+                recb = w.run('pr', p['id'])
+                acc.count('jobs')
+                acc.count('c15_second_command_in_a_row')
+                acc.seen('c15_second_command_outcomes', recb['status'])
+                if recb['status'] not in ('ResetComplete',
+                                          'LossyResetWarning'):
+                    acc.violation(
+                        'reset-command-not-executed',
+                        'second %s in a row on PR #%d, evaluation ended %s'
+                        % (command, p['id'], recb['status']), wit)
             rec2 = w.run('pr', p['id'])
             acc.count('jobs')
+            if rec2['status'] in ('ResetComplete', 'LossyResetWarning'):
+                acc.violation(
+                    'reset-executed-again-without-a-new-command',
+                    'after %s was answered, the next evaluation of PR #%d '
+                    'ended %s again: the integration branches are never '
+                    'rebuilt' % (command, p['id'], rec2['status']), wit)
             tgts = oracle.targets(list(rec2['after'].refs), p['dst'])
             want = [oracle.wname(oracle.version_of(t), p['src'])
                     for t in tgts[1:]]
